@@ -128,6 +128,19 @@ func init() {
 			pk := packed(true, nonce, aad, pt)
 			nonce, aad, pt = pk[0], pk[1], pk[2]
 		}
+		huge := c.has("aad_zeros")
+		if huge { // a huge all-zero additional data string (never logged byte by byte)
+			aad = make([]byte, c.num("aad_zeros"))
+		}
+		aadLog := func(copyIt bool) B {
+			if huge {
+				return B(nil)
+			}
+			if copyIt {
+				return B(append([]byte(nil), aad...))
+			}
+			return B(aad)
+		}
 		dst, in, whole := layout(c, pt)
 		inplace := c.str("alias") == "inplace"
 		ev["out"] = B(nil)
@@ -137,7 +150,7 @@ func init() {
 			if snapped {
 				return
 			}
-			ev["nonce_after"], ev["aad_after"] = B(nonce), B(aad)
+			ev["nonce_after"], ev["aad_after"] = B(nonce), aadLog(false)
 			if inplace {
 				ev["in_after"] = B(pt)
 			} else {
@@ -147,7 +160,7 @@ func init() {
 		out := a.Seal(dst, nonce, in, aad)
 		ev["out"] = B(out)
 		snap := func() {
-			ev["nonce_after"], ev["aad_after"] = B(append([]byte(nil), nonce...)), B(append([]byte(nil), aad...))
+			ev["nonce_after"], ev["aad_after"] = B(append([]byte(nil), nonce...)), aadLog(true)
 			if inplace {
 				ev["in_after"] = B(append([]byte(nil), pt...))
 			} else {
